@@ -93,10 +93,22 @@ def c03j_run(tid, wcfg, cfgline, seed):
         if deliver_first is not None and rec.pre['st'] in ('OPENCONFIRM', 'ESTABLISHED'):
             deliver_first()
 
+    # UPDATEs of unusual content are UPDATEs all the same: unknown AFI/SAFI in MP_REACH / MP_UNREACH, unknown attribute
+    special = {
+        'UPDMPX': wire.update(attrs=wire.attr(0x40, 1, b'\x00') + wire.attr(0x40, 2, b'') + wire.attr(0x90, 14, b'\x00\x63\x63\x04\x0a\x00\x00\x09\x00\x18\x0a\x01\x01')),
+        'UPDMPUX': wire.update(attrs=wire.attr(0x90, 15, b'\x00\x63\x63\x18\x0a\x01\x01')),
+        'UPDUNK': wire.update(attrs=wire.attr(0x40, 1, b'\x00') + wire.attr(0x40, 2, wire.as_path((65002,), True)) + wire.attr(0x40, 3, b'\x0a\x00\x00\x02') +
+                              wire.attr(0xc0, 200, b'\x01\x02\x03'), nlri=wire.prefix4(24, b'\x0a\x01\x01')),
+    }
+
     def deliver(name):
         def f():
             if rec.pre['trcs'] == 'open':
-                rec.step({'k': 'msg', 'c': c, 'm': name}, c)
+                if name in special:
+                    d = special[name]
+                    rec.step({'k': 'data', 'c': c, 'hex': d.hex(), 'cls': 'UPD', 'm': name}, c, data=d, extra={'flen': len(d)})
+                else:
+                    rec.step({'k': 'msg', 'c': c, 'm': name}, c)
         return f
     advance(rnd.randint(0, UNIT), deliver('KA'))
     for _ in range(rnd.randint(10, 40)):
@@ -112,7 +124,7 @@ def c03j_run(tid, wcfg, cfgline, seed):
             dt = rnd.randint(1, 3)
         else:
             dt = rnd.randint(1, max(2, (H if H else 60) * UNIT // 2))
-        msg = rnd.choice(['KA', 'KA', 'UPD', 'RR', None, None])
+        msg = rnd.choice(['KA', 'KA', 'UPD', 'UPDBAD', 'UPDMPX', 'UPDMPUX', 'UPDUNK', 'RR', None, None])
         advance(dt, deliver(msg) if msg else None)
     return rec.lines
 
@@ -125,6 +137,60 @@ def c03j_jobs(tier, seed):
             wcfg = dict(tick=1.0 / UNIT, tnum=1, tden=UNIT, crt=20, idle=20, hold=hold, las=65001, ras=65002)
             jobs.append(('c03j', wcfg, seed * 1000003 + n))
             n += 1
+    return jobs
+
+
+# ----------------------------------------------------------------------------- C12 (fault: TCP-MD5 socket option fails)
+def c12md5_run(tid, wcfg, cfgline, seed):
+    """Random environment behaviour (not model-driven) with an MD5 password configured and the setsockopt(TCP_MD5SIG)
+    call failing on chosen connection attempts: the exception leaves BGPPeering.connect() half-way.  Judged by the C12
+    clauses only (one attempt / connection at a time, messages to the tracked connection, no orphan)."""
+    rnd = random.Random(seed)
+    w = World(wcfg)
+    rec = R.Recorder(w, tid, cfgline)
+    rec.step({'k': 'boot', 'c': 0}, 0)
+    for _ in range(rnd.randint(15, 45)):
+        conns = [(i, W.connectors[i - 1]) for i in w.alive]
+        pending = [i for i, k in conns if k.state == 'connecting']
+        live = [i for i, k in conns if k.state == 'connected']
+        closing = [i for i in live if W.connectors[i - 1].transport.disconnecting]
+        opts = []
+        if w.due_calls():
+            opts += ['firedue'] * 3
+        else:
+            opts += ['tick'] * 3
+        if pending:
+            opts += ['connOk', 'connOk', 'connRefused']
+        if closing:
+            opts += ['connLost'] * 2
+        if live:
+            opts += ['connLost', 'open', 'ka']
+        opts += ['stop', 'start'] if rnd.random() < 0.25 else []
+        a = rnd.choice(opts)
+        if a in ('firedue', 'tick', 'stop', 'start'):
+            rec.step({'k': a, 'c': 0}, 0)
+        elif a in ('connOk', 'connRefused'):
+            c = rnd.choice(pending)
+            rec.step({'k': a, 'c': c}, c)
+        elif a == 'connLost':
+            c = rnd.choice(closing or live)
+            rec.step({'k': 'connLost', 'c': c}, c)
+        else:
+            c = rnd.choice(live)
+            if not W.connectors[c - 1].transport.disconnecting:
+                rec.step({'k': 'msg', 'c': c, 'm': 'OPEN' if a == 'open' else 'KA', 'h': 90}, c)
+    return rec.lines
+
+
+def c12md5_jobs(tier, seed):
+    jobs = []
+    n = 0
+    for fail in ([1], [2], [1, 2], [1, 3, 5], 'all', []):
+        for crt in (20, 40):
+            for _ in range(25 if tier == 'quick' else 600):
+                wcfg = dict(tick=10.0, crt=crt, idle=20, hold=90, las=65001, ras=65002, md5='secret', sockopt_fail=fail)
+                jobs.append(('c12md5', wcfg, seed * 1000003 + n))
+                n += 1
     return jobs
 
 
@@ -218,6 +284,13 @@ C05_CONFIGS = [
     dict(las=65001, ras=65001, four_bytes_as=True),
     dict(las=1, ras=4294967295, four_bytes_as=True, caps=['route_refresh']),
     dict(las=70000, ras=65002, four_bytes_as=False, caps=[]),
+    dict(las=65001, ras=65002, four_bytes_as=True, add_path='ipv4_both', afi_safi=['ipv4', 'ipv6', 'flowspec']),
+    # what the socket reports as the local address changes from connection to connection (the identifier must not)
+    dict(las=65001, ras=65002, four_bytes_as=True, hosts=['raise', '10.0.0.1', '10.0.0.7']),
+    dict(las=65001, ras=65002, four_bytes_as=True, hosts=['127.0.0.1', '10.0.0.1', '192.168.1.1']),
+    dict(las=65001, ras=65002, four_bytes_as=True, hosts=['2001:db8::1', '10.0.0.1']),
+    dict(las=65001, ras=65002, four_bytes_as=True, hosts=['10.0.0.9', '10.0.0.1', 'raise']),
+    dict(las=65001, ras=65002, four_bytes_as=True, add_path='ipv4_receive', caps=['graceful_restart'], afi_safi=['ipv4', 'evpn']),
 ]
 
 
@@ -390,6 +463,33 @@ def c10_run(tid, wcfg, cfgline, state, cls, data):
     return rec.lines
 
 
+def c01n_run(tid, wcfg, cfgline, state, code, sub, extra_data):
+    """a NOTIFICATION with the given error code / subcode in the given session state (C01: every NOTIFICATION ends the session)"""
+    w = World(wcfg)
+    rec = R.Recorder(w, tid, cfgline)
+    first_session(w, rec)
+    if state in ('OPENCONFIRM', 'ESTABLISHED'):
+        rec.step({'k': 'msg', 'c': 1, 'm': 'OPEN', 'h': 90}, 1)
+    if state == 'ESTABLISHED':
+        rec.step({'k': 'msg', 'c': 1, 'm': 'KA'}, 1)
+    data = wire.frame(3, bytes([code, sub]) + extra_data)
+    cls = 'NOTIF_VER' if (code, sub) == (2, 1) else 'NOTIF'
+    rec.step({'k': 'data', 'c': 1, 'hex': data.hex(), 'cls': cls, 'm': 'N%d.%d' % (code, sub)}, 1, data=data, extra={'flen': len(data)})
+    return rec.lines
+
+
+def c01n_jobs(tier, seed):
+    wcfg = dict(tick=10.0, crt=20, idle=20, hold=90, las=65001, ras=65002)
+    jobs = []
+    for state in ('OPENSENT', 'OPENCONFIRM', 'ESTABLISHED'):
+        for code in list(range(0, 10)) + [255]:
+            for sub in (list(range(0, 13)) + [255]) if (tier == 'thorough' or code <= 7) else (0, 1):
+                jobs.append(('c01n', wcfg, state, code, sub, b''))
+                if sub in (0, 2):
+                    jobs.append(('c01n', wcfg, state, code, sub, b'\x00\x04'))
+    return jobs
+
+
 # ----------------------------------------------------------------------------- C16
 RULE_CLASS = {'state': 'read', 'statistic': 'read', 'version/send': 'read', 'version/received': 'read', 'version/bogus': 'read',
               'manual-start': 'ctl', 'manual-stop': 'ctl', 'send/update': 'send', 'send/route-refresh': 'send', 'send/bin_update': 'send',
@@ -534,6 +634,12 @@ def run_jobs(args):
                 _, cc, hist, final = job
                 wcfg = dict(tick=10.0, crt=20, idle=20, **cc)
                 lines = c05_run(tid, wcfg, cfgline_fn(wcfg), hist, final)
+            elif job[0] == 'c01n':
+                _, wcfg, state, code, sub, xd = job
+                lines = c01n_run(tid, wcfg, cfgline_fn(wcfg), state, code, sub, xd)
+            elif job[0] == 'c12md5':
+                _, wcfg, sd = job
+                lines = c12md5_run(tid, wcfg, cfgline_fn(wcfg), sd)
             elif job[0] == 'c03j':
                 _, wcfg, sd = job
                 lines = c03j_run(tid, wcfg, cfgline_fn(wcfg), sd)
